@@ -884,17 +884,23 @@ func BetweenExpr(query *Query, current Map, expr *sqlparser.BetweenExpr, opts ..
 	if err != nil {
 		return false, err
 	}
-	pointValue := fmt.Sprintf("%v", pointValueRaw)
-	fromValue := fmt.Sprintf("%v", from)
-	toValue := fmt.Sprintf("%v", to)
+	fromValue, err := ValueOf(query, current, from)
+	if err != nil {
+		return false, err
+	}
+	toValue, err := ValueOf(query, current, to)
+	if err != nil {
+		return false, err
+	}
+	isBetween := compare.Compare(pointValueRaw, fromValue) >= 0 && compare.Compare(pointValueRaw, toValue) <= 0
 	switch expr.IsBetween {
 	case true:
 		{
-			return (pointValue > fromValue) && (pointValue < toValue), nil
+			return isBetween, nil
 		}
 	default:
 		{
-			return !((pointValue > fromValue) && (pointValue < toValue)), nil
+			return !isBetween, nil
 		}
 	}
 }
